@@ -129,7 +129,7 @@ def keep_mask(pb, fully, mask_dict, atol):
             sub = ~np.asarray(mask_dict[b], dtype=bool)
         elif fully is not None and b in fully:
             e = pb.E[ix]
-            sub = np.abs(e.reshape(-1, 1) - e) < atol
+            sub = np.abs(e.reshape(-1, 1) - e) <= atol      # the library keeps what is equal within atol (inclusive: atol = 0 means exactly equal)
         keep[np.ix_(ix, ix)] = sub
     return keep
 
@@ -311,6 +311,11 @@ def section_herm():
     # chain of near-degeneracies with a large tolerance (kept pattern not transitive)
     pb = Problem([0.0, 0.1, 0.2, 1.0, 2.0], [0, 0, 0, 0, 0], seed=3)
     check_problem("herm", pb, 3, fully=(0,), atol=0.15, label="chain/atol0.15")
+    # exact comparisons requested: atol = 0 (exactly degenerate and exactly zero entries only)
+    for fmt in ("dense", "sparse"):
+        pb = Problem([0.0, 0.0, 2.0, 3.5], [0, 0, 1, 1], seed=9, fmt=fmt)
+        check_problem("herm", pb, 3, atol=0, label=f"atol0/{fmt}")
+        check_problem("herm", pb, 2, fully=(0, 1), atol=0, label=f"atol0/full/{fmt}")
 
 
 def section_nonherm():
@@ -729,6 +734,53 @@ def section_solvers():
                     fail("solvers", "direct solver (non-Hermitian, left-implicit): H V - V E != P Y", cplx=cplx, kind=kind, err=float(err))
             except Exception as e:
                 fail("solvers", "direct solver / Green's function raised for a biorthogonal non-Hermitian problem", cplx=cplx, kind=kind, error=repr(e)[:300])
+    # direct solver WITHOUT the nonhermitian flag (it only controls whether the left-implicit Green's functions are prepared) on an h_0 whose explicit
+    # levels have genuinely complex energies: biorthogonal pairs of a random non-normal matrix, and a real non-reciprocal circulant (normal, complex spectrum);
+    # right-implicit orientation, explicit-explicit pairs of a two-subspace setup, and both orientations with the flag
+    for kind in ("non-normal", "real-circulant"):
+        for flag in (None, False, True):
+            cases += 1
+            n = 7
+            if kind == "non-normal":
+                S = rng.normal(size=(n, n)) + 1j * rng.normal(size=(n, n)) + 3 * np.eye(n)
+                wv = np.array([0.3 + 0.8j, -0.4 - 0.5j, 1.5 + 0.2j, 2.0 - 1.0j, -2.0 + 0.1j, 3.0 + 1.5j, -3.0 - 0.7j])
+                H = S @ np.diag(wv) @ np.linalg.inv(S)
+                Rf, Lf = S, np.linalg.inv(S).conj().T
+            else:
+                c = np.array([0.0, 1.0, 0.0, 0.0, 0.0, 0.0, 0.3])      # hopping 1 to the right, 0.3 to the left
+                H = np.array([[c[(j - i) % n] for j in range(n)] for i in range(n)], dtype=float)
+                F = np.exp(2j * np.pi * np.outer(np.arange(n), np.arange(n)) / n) / np.sqrt(n)
+                wv = np.array([(F[:, m].conj() @ H @ F[:, m]) for m in range(n)])
+                Rf, Lf = F, F
+            if np.abs(H @ Rf - Rf @ np.diag(wv)).max() > 1e-9 or np.abs(Lf.conj().T @ Rf - np.eye(n)).max() > 1e-9:
+                fail("solvers", "battery error: not an eigen-decomposition", kind=kind)
+                continue
+            levA, levB = [0, 1], [2]
+            subs = [(Rf[:, levA], Lf[:, levA]), (Rf[:, levB], Lf[:, levB])]
+            Pk = np.eye(n) - Rf[:, levA + levB] @ Lf[:, levA + levB].conj().T
+            try:
+                kwf = {} if flag is None else {"nonhermitian": flag}
+                ss = solve_sylvester_direct(sparse.csr_array(H), subs, **kwf)
+                for bi, lev in ((0, levA), (1, levB)):
+                    Ed = np.diag(wv[lev])
+                    Y = rng.normal(size=(len(lev), n)) + 1j * rng.normal(size=(len(lev), n))
+                    V = np.asarray(ss(Y, (bi, 2)))
+                    err = np.abs(Ed @ V - V @ H - Y @ Pk).max()
+                    if not err < 1e-7:
+                        fail("solvers", "direct solver, complex explicit energies, right-implicit: E V - V H != Y P", kind=kind, flag=flag, block=bi, err=float(err))
+                    if flag:
+                        Y = rng.normal(size=(n, len(lev))) + 1j * rng.normal(size=(n, len(lev)))
+                        V = np.asarray(ss(Y, (2, bi)))
+                        err = np.abs(H @ V - V @ Ed - Pk @ Y).max()
+                        if not err < 1e-7:
+                            fail("solvers", "direct solver, complex explicit energies, left-implicit: H V - V E != P Y", kind=kind, flag=flag, block=bi, err=float(err))
+                Y = rng.normal(size=(2, 1)) + 1j * rng.normal(size=(2, 1))
+                V = np.asarray(ss(Y, (0, 1)))
+                err = np.abs(np.diag(wv[levA]) @ V - V @ np.diag(wv[levB]) - Y).max()
+                if not err < 1e-9:
+                    fail("solvers", "direct solver, complex explicit energies, explicit-explicit pair: E_A V - V E_B != Y", kind=kind, flag=flag, err=float(err))
+            except Exception as e:
+                fail("solvers", "direct solver raised for a non-Hermitian h_0 with complex explicit energies", kind=kind, flag=flag, error=repr(e)[:300])
     # KPM solver with and without exactly known auxiliary vectors
     n = 30
     M = rng.normal(size=(n, n))
@@ -854,6 +906,36 @@ def section_illposed():
     bad = v.copy()
     bad[:, 0] *= 2
     expect("eigenvectors not orthonormal", (ValueError,), lambda: block_diagonalize([np.diag([0.0, 1.0, 3.0, 4.0]), herm(4, False)], subspace_eigenvectors=(bad[:, :2], bad[:, 2:])))
+    # the same for every container type of the eigenvectors and several kinds of defect; H_0 stays block diagonal in the given (skewed) bases, so
+    # the only thing wrong with the input is L^dagger R != 1
+    x_ = sympy.Symbol("x_", real=True)
+    h0q, h1q = np.diag([0, 0, 1, 3]), np.array([[0, 1, 2, 1], [1, 0, 1, 1], [2, 1, 0, 3], [1, 1, 3, 0]])
+    I4 = np.eye(4, dtype=int)
+    defects = {"first subspace not normalised": (2 * I4[:, :2], I4[:, 2:]), "second subspace not normalised": (I4[:, :2], I4[:, 2:] * 3),
+               "degenerate subspace spanned by non-orthogonal vectors": (np.array([[1, 1], [0, 1], [0, 0], [0, 0]]), I4[:, 2:])}
+    convs = {"ndarray": lambda a: np.array(a, dtype=float), "sparse array": lambda a: sparse.csr_array(np.array(a, dtype=float)),
+             "sympy mutable": lambda a: sympy.Matrix(a.tolist()), "sympy immutable": lambda a: sympy.ImmutableMatrix(a.tolist()),
+             "sympy immutable (as_immutable)": lambda a: sympy.Matrix(a.tolist()).as_immutable()}
+    for dl, (va, vb) in defects.items():
+        for cl, conv in convs.items():
+            def thunk_o(va=va, vb=vb, conv=conv, cl=cl):
+                if cl.startswith("sympy"):
+                    ham = sympy.Matrix(h0q.tolist()) + x_ * sympy.Matrix(h1q.tolist())
+                    return block_diagonalize(ham, symbols=[x_], subspace_eigenvectors=(conv(va), conv(vb)))[0][0, 0, 2]
+                return block_diagonalize([h0q.astype(float), h1q.astype(float)], subspace_eigenvectors=(conv(va), conv(vb)))[0][0, 0, 2]
+            expect(f"eigenvectors not orthonormal ({dl}; {cl})", (ValueError,), thunk_o)
+    # biorthogonal pairs whose left vectors are not dual to the right ones (hermitian=False)
+    Rq = np.eye(4)
+    Lq = np.eye(4)
+    Lq[1, 0] = 0.5
+    for cl, conv in (("ndarray", lambda a: np.array(a, dtype=float)), ("sympy immutable", lambda a: sympy.ImmutableMatrix(sympy.Matrix(a.tolist()).applyfunc(sympy.nsimplify)))):
+        def thunk_b(conv=conv, cl=cl):
+            subs = [(conv(Rq[:, :2]), conv(Lq[:, :2])), (conv(Rq[:, 2:]), conv(Lq[:, 2:]))]
+            if cl.startswith("sympy"):
+                ham = sympy.Matrix(h0q.tolist()) + x_ * sympy.Matrix(h1q.tolist())
+                return block_diagonalize(ham, symbols=[x_], subspace_eigenvectors=subs, hermitian=False)[0][0, 0, 2]
+            return block_diagonalize([h0q.astype(float), h1q.astype(float)], subspace_eigenvectors=subs, hermitian=False)[0][0, 0, 2]
+        expect(f"left vectors not dual to the right vectors ({cl})", (ValueError,), thunk_b)
     # mutually exclusive options
     expect("subspace_indices and subspace_eigenvectors together", (ValueError,), lambda: block_diagonalize(
         [np.diag([0.0, 1.0, 3.0, 4.0]), herm(4, False)], subspace_eigenvectors=(v[:, :2], v[:, 2:]), subspace_indices=[0, 0, 1, 1]))
@@ -930,6 +1012,117 @@ def section_tol_finding():
              U_implicit=float(np.abs(u).max()), U_explicit=float(np.abs(uf).max()))
 
 
+def section_scale_finding():
+    """Witness of known finding F-SCALE (C15): the shared-eigenvalue test of the diagonal solver uses np.isclose with its default ABSOLUTE tolerance 1e-8
+    (besides the library's atol = 1e-12), so scaling the whole Hamiltonian by a small positive constant turns a well-posed problem into a rejected one."""
+    global cases
+    cases += 1
+    rng = np.random.default_rng(0)
+    H0 = np.diag([0.0, 1.0, 2.0, 3.0])
+    M = rng.normal(size=(4, 4))
+    H1 = (M + M.T) / 2
+    ref = block_diagonalize([H0, H1], subspace_indices=[0, 0, 1, 1])[0][0, 0, 2]
+    for s in (1e-6, 1e-9):
+        try:
+            got = block_diagonalize([s * H0, s * H1], subspace_indices=[0, 0, 1, 1])[0][0, 0, 2]
+            if np.abs(got - s * ref).max() > 1e-9 * s:
+                fail("scale_finding", "scaled Hamiltonian: H_tilde is not scaled", scale=s)
+        except ValueError as e:
+            fail("scale_finding", "scaling the whole Hamiltonian by a positive constant makes block_diagonalize reject it (gaps below np.isclose's absolute 1e-8, far above atol = 1e-12)", scale=s, error=str(e))
+
+
+def section_kpm_shift_finding():
+    """Witness of known finding F-KPM-SHIFT (C15): kpm.rescale refuses spectra whose width is below 0.25 % of the distance of their centre from zero, so
+    adding a multiple of the identity to H_0 (ratio gap/|energy| = 8e-5 > 1e-5 here) makes the KPM solver raise."""
+    global cases
+    cases += 1
+    n = 30
+    h0 = sparse.diags([np.ones(n - 1), np.linspace(-1, 1, n), np.ones(n - 1)], [-1, 0, 1]).toarray()
+    rng = np.random.default_rng(2)
+    M = rng.normal(size=(n, n))
+    h1 = (M + M.T) / 2
+    w, v = np.linalg.eigh(h0)
+    vals = {}
+    for shift in (0.0, 100.0, 3000.0):
+        try:
+            with warnings.catch_warnings():
+                warnings.simplefilter("ignore")
+                Ht = block_diagonalize([sparse.csr_array(h0 + shift * np.eye(n)), sparse.csr_array(h1)], subspace_eigenvectors=[v[:, :2]], direct_solver=False,
+                                       solver_options={"atol": 1e-7})[0]
+                vals[shift] = np.asarray(Ht[0, 0, 2])
+        except ValueError as e:
+            fail("kpm_shift_finding", "KPM solver: adding a multiple of the identity to H_0 makes block_diagonalize raise", shift=shift, error=str(e)[:200])
+    if 0.0 in vals and 100.0 in vals and np.abs(vals[0.0] - vals[100.0]).max() > 1e-4:
+        fail("kpm_shift_finding", "KPM solver: second order changes under a shift of 100", err=float(np.abs(vals[0.0] - vals[100.0]).max()))
+
+
+def section_impl_shared_finding():
+    """Witness of known finding F-IMPL-SHARED (C20): in implicit mode an energy shared between an explicit level and the IMPLICIT block is not rejected with
+    ValueError/TypeError/NotImplementedError: the direct solver fails with scipy's RuntimeError('Factor is exactly singular'), the KPM solver answers with
+    finite numbers and a RuntimeWarning only."""
+    global cases
+    rng = np.random.default_rng(4)
+    H0 = np.diag([0.0, 1.0, 1.0, 2.0, 3.0, 4.0])
+    M = rng.normal(size=(6, 6))
+    H1 = (M + M.T) / 2
+    for direct in (True, False):
+        cases += 1
+        try:
+            with warnings.catch_warnings():
+                warnings.simplefilter("ignore")
+                val = block_diagonalize([sparse.csr_array(H0), sparse.csr_array(H1)], subspace_eigenvectors=[np.eye(6)[:, :2]], direct_solver=direct,
+                                        **({} if direct else {"solver_options": {"atol": 1e-6}}))[0][0, 0, 2]
+            fail("impl_shared_finding", "implicit block shares an energy with an explicit level: accepted and answered", direct_solver=direct, value=np.asarray(val).round(3).tolist())
+        except (ValueError, TypeError, NotImplementedError):
+            pass
+        except Exception as e:  # noqa: BLE001
+            fail("impl_shared_finding", "implicit block shares an energy with an explicit level: rejected with an exception outside ValueError/TypeError/NotImplementedError",
+                 direct_solver=direct, error=f"{type(e).__name__}: {e}"[:200])
+
+
+def section_ortho_rtol_finding():
+    """Witness of known finding F-ORTHO-RTOL (C20): _check_biorthonormality compares with np.allclose, whose default RELATIVE tolerance 1e-5 applies to the
+    unit diagonal of the overlap, so eigenvectors whose norm is off by 2e-6 pass although atol = 1e-12; H_tilde is then off by about 1e-6."""
+    global cases
+    cases += 1
+    rng = np.random.default_rng(0)
+    H0 = np.diag([0.0, 1.0, 2.0, 3.0])
+    M = rng.normal(size=(4, 4))
+    H1 = (M + M.T) / 2
+    v = np.eye(4)
+    ref = block_diagonalize([H0, H1], subspace_eigenvectors=[v[:, :2], v[:, 2:]])[0][0, 0, 2]
+    try:
+        got = block_diagonalize([H0, H1], subspace_eigenvectors=[v[:, :2] * (1 + 2e-6), v[:, 2:]])[0][0, 0, 2]
+        fail("ortho_rtol_finding", "eigenvectors with norm 1 + 2e-6 are accepted (atol = 1e-12)", error_in_H_tilde_2=float(np.abs(got - ref).max()))
+    except ValueError:
+        pass
+
+
+def section_batch_finding():
+    """Witness of known finding F-BATCH (C17): scipy >= 1.18 lets LinearOperator.matvec / rmatvec take a batch of row vectors of shape (..., N);
+    ComplementProjector binds _matvec to its matrix routine, which contracts the FIRST axis."""
+    global cases
+    cases += 1
+    from pymablock.linalg import ComplementProjector
+    rng = np.random.default_rng(0)
+    N = 5
+    R = rng.normal(size=(N, 2))
+    L = np.linalg.pinv(R).T
+    P = ComplementProjector(R, L)
+    D = np.eye(N) - R @ L.conj().T
+    for B in (N, 3):
+        X = rng.normal(size=(B, N))
+        for nm, f, want in (("matvec", P.matvec, X @ D.T), ("rmatvec", P.rmatvec, X @ D.conj())):
+            try:
+                with warnings.catch_warnings():
+                    warnings.simplefilter("ignore")
+                    got = np.asarray(f(X))
+                if got.shape != want.shape or np.abs(got - want).max() > 1e-9:
+                    fail("batch_finding", f"{nm} of a batch of row vectors differs from the dense matrix applied to each row", batch=B)
+            except Exception as e:  # noqa: BLE001
+                fail("batch_finding", f"{nm} of a batch of row vectors raised", batch=B, error=f"{type(e).__name__}: {e}"[:160])
+
+
 def section_projector():
     """C17: ComplementProjector against the dense matrix 1 - R L^H under every operator operation."""
     global cases
@@ -940,9 +1133,16 @@ def section_projector():
 
     def rnd(shape, cplx):
         return rng.normal(size=shape) + (1j * rng.normal(size=shape) if cplx else 0)
-    for cR, cL, biorth in ((False, False, False), (True, True, False), (False, False, True), (True, True, True), (False, True, True), (True, False, True)):
+    for cR, cL, biorth in ((False, False, False), (True, True, False), (False, False, True), (True, True, True), (False, True, True), (True, False, True),
+                           (False, False, "near"), (True, True, "near"), (False, True, "near"), (True, True, "equal-copy")):
         R = rnd((n, k), cR)
-        L = rnd((n, k), cL) if biorth else None
+        if biorth == "near":
+            # left vectors that differ from the right ones by 4e-6 (weak gain / loss): different matrices, although np.allclose(L, R) holds
+            L = R + 2.0 ** -18 * rnd((n, k), cL)
+        elif biorth == "equal-copy":
+            L = R.copy()
+        else:
+            L = rnd((n, k), cL) if biorth else None
         P = ComplementProjector(R, L)
         D = np.eye(n) - R @ (R if L is None else L).conj().T
         x1, xm = rnd((n,), True), rnd((n, 3), True)
@@ -964,7 +1164,7 @@ def section_projector():
             }
             for cn, (got, want) in checks.items():
                 try:
-                    if not np.allclose(np.asarray(got), want, atol=1e-9):
+                    if not np.abs(np.asarray(got) - want).max() <= 1e-9 * max(1.0, np.abs(want).max()):
                         fail("projector", "operator result differs from the dense matrix 1 - R L^H", view=nm, check=cn, complexR=cR, complexL=cL, biorthogonal=biorth)
                 except Exception as e:
                     fail("projector", "operator operation raised", view=nm, check=cn, error=repr(e)[:200])
@@ -990,7 +1190,7 @@ if __name__ == "__main__":
             fn = globals().get("section_" + name)
             if fn is None:
                 continue
-            if OFF and name in ("nh_finding", "spm_finding", "tol_finding", "projector", "spectrum", "spectrum_symbolic", "illposed"):
+            if OFF and name in ("nh_finding", "spm_finding", "tol_finding", "scale_finding", "kpm_shift_finding", "impl_shared_finding", "ortho_rtol_finding", "batch_finding", "projector", "spectrum", "spectrum_symbolic", "illposed"):
                 continue   # deterministic sections
             try:
                 fn()
